@@ -534,7 +534,7 @@ func init() {
 			"(minimal/redundant parentheses, whitespace/comments/line breaks, explicit ';' vs ASI) and parsed under every applicable Options value: all must be accepted and String() after removing GroupExpr must equal that of the reference spelling; WhileToFor is compared with the generator-rewritten for-loop program; " +
 			"mutants (one bracket deleted/inserted at a token boundary, forbidden operator combinations in 10 syntactic frames, a lexical name declared twice in 12 kinds of scope) must be rejected with an error and no tree. non-trivial = every generated program; distinct by reference spelling",
 		Assume: []string{"the fully parenthesised spelling determines the structure: agreement of every other spelling with it is what 'the structure the grammar dictates' is checked against",
-			"generated programs avoid HTML-like comments, legacy octal literals, 'let'/'async'/'yield'/'await' as identifiers, 'with', and function declarations inside blocks",
+			"generated programs avoid HTML-like comments, legacy octal literals, 'let' and 'await' as identifiers (async, of, get, set, as, from and, outside generators and strict code, yield are used as names), 'with', and a lexical declaration of the name of a function declared in a nested block",
 			"restricted productions are never split by a line break in generated spellings (ASI is exercised at statement ends only)"},
 		Required: []string{"parses", "spellings.agree", "whiletofor.compared", "mutants.rejected", "probes"},
 		Streams: []fw.Stream{
